@@ -34,12 +34,12 @@ theorem c12_deleted_is_gone (db : DbL) (id : KsId) : (db.deleteKs id).find id = 
   simpa using this
 
 /-- **No id is handed out while the journal still mentions it** (repaired, F1): in every reachable
-    state, a newly created keyspace gets an id that no live keyspace has and no journal record
-    carries — so records of a deleted keyspace can never be replayed into a later one. -/
+    state, a newly created keyspace gets an id that no live keyspace has and no record in any journal file
+    (sealed or active) carries — so records of a deleted keyspace can never be replayed into a later one. -/
 theorem c12_new_id_is_fresh (ops : List DOp) (hwf : ProgWF {} ops) (name : String)
     (hnew : ∀ k ∈ (drun {} ops).kss, k.name ≠ name) :
     let db := drun {} ops
-    (∀ k ∈ db.kss, k.id ≠ (db.createKs name).2) ∧ (∀ r ∈ db.active.recs, r.ks ≠ (db.createKs name).2) := by
+    (∀ k ∈ db.kss, k.id ≠ (db.createKs name).2) ∧ (∀ r ∈ allRecs db, r.ks ≠ (db.createKs name).2) := by
   intro db
   have h := drun_inv {} ops dinv_init hwf
   have hid : (db.createKs name).2 = db.nextKsId := by
